@@ -175,10 +175,15 @@ def first_diff(a, b):
 # exactness on real heaps: a long-lived state returns to its baseline object count
 
 def conservation_shard(args):
-    seed, rounds, batch = args
+    seed, rounds, batch = args[:3]
+    asan = len(args) > 3 and args[3]
     rng = random.Random(seed)
     agg = Agg()
-    srv = Server()
+    if asan:
+        srv = Server(binary=common.ASAN_EVALSRV, mem_gib=None,
+                     env=dict(os.environ, ASAN_OPTIONS="detect_leaks=1:halt_on_error=1:exitcode=66"))
+    else:
+        srv = Server()
     try:
         progs = [s.encode() for s in STRESS]
         while len(progs) < batch:
@@ -226,7 +231,16 @@ def conservation_shard(args):
                               {"baseline": c0, "after_rounds": counts, "seed": seed}, {"script": lines[:200]})
                 break
     finally:
-        srv.close()
+        if asan and srv.proc is not None and srv.proc.poll() is None:
+            # a normal exit lets LeakSanitizer look for Rc cycles that survive the drop of the program state
+            rc, err = srv.quit(timeout=600)
+            agg.count("lsan_clean_exits" if rc == 0 else "lsan_exit_%s" % rc)
+            if rc not in (0, None) or "Sanitizer" in err:
+                m = re.search(r"(AddressSanitizer|LeakSanitizer): ([a-z-]+)", err)
+                agg.violation({"kind": "sanitizer_report", "what": m.group(0) if m else "exit %s" % rc},
+                              {"stderr": err[-1500:], "seed": seed}, None)
+        else:
+            srv.close()
     return agg
 
 
@@ -331,6 +345,9 @@ def run(tier, seed):
         total.merge(a)
     if not quick:
         miri_leg(total, [seed * 10 + i for i in range(16)])
+        common.build_asan()
+        for a in common.pmap(conservation_shard, [(seed * 617 + i, 2, 120, True) for i in range(16)]):
+            total.merge(a)
     rule = ("(1) scripted heaps through the verif_gc facade against a reachability model: every op sequence up to a "
             "length bound over <= 3-4 nodes / <= 4-6 external handles (alloc, alloc_view, clone, view_of, weak_of, "
             "add/del edge, drop, gc; an implicit final collection, then all handles dropped and a last collection) + "
